@@ -3710,3 +3710,58 @@ let gen_mm tbs it =
       obind (tl_get tbs O (d O)) (fun g3 -> Some (VR
         ((s O) :: (g1 :: ((s (S (S O))) :: (g3 :: ((d (S O)) :: ((d (S (S O))) :: (
         (d (S (S (S O)))) :: [])))))))))))
+
+type xop =
+| XQr of val0 option list * val0 option
+| XAec of val0 option list * val0 option
+| XMm of val0 option list * val0 option
+| XWb
+| XRot of bool
+| XAddBp of val0
+| XSetBp of n
+
+(** val xstep : exporter -> xop -> exporter * n **)
+
+let xstep x = function
+| XQr (gr, st) -> buffer_qr gr st x
+| XAec (ga, st) -> buffer_aec ga st x
+| XMm (gm, st) -> buffer_mm gm st x
+| XWb -> write_block x
+| XRot e -> rotate e x
+| XAddBp bp -> add_block_parameters bp x
+| XSetBp i ->
+  let (x', b) = set_active i x in (x', (if b then Npos XH else N0))
+
+(** val xrun : exporter -> xop list -> exporter **)
+
+let xrun x ops =
+  fold_left (fun x0 o -> fst (xstep x0 o)) ops x
+
+(** val tbs_of_tables : tables -> val0 option list **)
+
+let tbs_of_tables tb =
+  (Some (VL tb.t_ip)) :: ((Some (VL tb.t_ct)) :: ((Some (VL
+    tb.t_nr)) :: ((Some (VL tb.t_sig)) :: ((Some (VL tb.t_qlist)) :: ((Some
+    (VL tb.t_qrr)) :: ((Some (VL tb.t_rrlist)) :: ((Some (VL
+    tb.t_rr)) :: ((Some (VL tb.t_mmd)) :: []))))))))
+
+(** val tables_of_tbs : val0 option list -> tables **)
+
+let tables_of_tbs l =
+  { t_ip = (lst (nth_o l O)); t_ct = (lst (nth_o l (S O))); t_nr =
+    (lst (nth_o l (S (S O)))); t_sig = (lst (nth_o l (S (S (S O)))));
+    t_qlist = (lst (nth_o l (S (S (S (S O)))))); t_qrr =
+    (lst (nth_o l (S (S (S (S (S O))))))); t_rrlist =
+    (lst (nth_o l (S (S (S (S (S (S O)))))))); t_rr =
+    (lst (nth_o l (S (S (S (S (S (S (S O))))))))); t_mmd =
+    (lst (nth_o l (S (S (S (S (S (S (S (S O)))))))))) }
+
+(** val blk_of_rb : rblock -> blk **)
+
+let blk_of_rb rb =
+  { b_earliest =
+    (match ts_of_val rb.r_earliest with
+     | Some t -> t
+     | None -> ts0); b_bpi = (vn rb.r_bpi); b_bp = rb.r_bp; b_stats =
+    rb.r_stats; b_tb = (tables_of_tbs rb.r_tables); b_qrs = rb.r_qrs;
+    b_aecs = rb.r_aecs; b_mms = rb.r_mms }
